@@ -72,10 +72,62 @@ def gen_obs(r, wires, allow_hermitian=True):
 
 
 def build_op(spec):
+    """[name, wires, params] | ["adjoint", spec] | ["pow", spec, z] | ["ctrl", spec, controls, values]"""
     import pennylane as qp
 
+    head = spec[0]
+    if head == "adjoint":
+        return qp.adjoint(build_op(spec[1]))
+    if head == "pow":
+        return qp.pow(build_op(spec[1]), spec[2])
+    if head == "ctrl":
+        kw = {}
+        if len(spec) > 3 and spec[3] is not None:
+            kw["control_values"] = spec[3]
+        return qp.ctrl(build_op(spec[1]), control=spec[2], **kw)
     name, wires, params = spec
     return getattr(qp, name)(*params, wires=wires)
+
+
+def op_wires(spec):
+    if spec[0] in ("adjoint", "pow"):
+        return op_wires(spec[1])
+    if spec[0] == "ctrl":
+        return list(spec[2]) + op_wires(spec[1])
+    return list(spec[1])
+
+
+def map_op_wires(spec, wmap):
+    if spec[0] == "adjoint":
+        return ["adjoint", map_op_wires(spec[1], wmap)]
+    if spec[0] == "pow":
+        return ["pow", map_op_wires(spec[1], wmap), spec[2]]
+    if spec[0] == "ctrl":
+        return ["ctrl", map_op_wires(spec[1], wmap), [wmap[w] for w in spec[2]]] + list(spec[3:])
+    return [spec[0], [wmap[w] for w in spec[1]], list(spec[2])]
+
+
+def map_obs_wires(spec, wmap):
+    k = spec[0]
+    if k == "P":
+        return ["P", spec[1], [wmap[w] for w in spec[2]]]
+    if k == "H":
+        return ["H", spec[1], [wmap[w] for w in spec[2]]]
+    if k == "L":
+        return ["L", [[c, w, [wmap[x] for x in ws]] for c, w, ws in spec[1]]]
+    if k == "Proj":
+        return ["Proj", spec[1], [wmap[w] for w in spec[2]]]
+    raise ValueError(k)
+
+
+def map_mp_wires(spec, wmap):
+    kind = spec[0]
+    if kind == "state":
+        return list(spec)
+    arg = spec[1]
+    if isinstance(arg, list) and arg and isinstance(arg[0], str):
+        return [kind, map_obs_wires(arg, wmap)] + list(spec[2:])
+    return [kind, [wmap[w] for w in arg]] + list(spec[2:])
 
 
 def build_ops(specs):
@@ -142,8 +194,11 @@ def build_tape(spec):
     shots = spec.get("shots")
     if isinstance(shots, list):
         shots = tuple(shots)
-    return qp.tape.QuantumScript(build_ops(spec["ops"]), [build_mp(m) for m in spec["mps"]],
+    tape = qp.tape.QuantumScript(build_ops(spec["ops"]), [build_mp(m) for m in spec["mps"]],
                                  shots=shots)
+    if spec.get("trainable") is not None:
+        tape.trainable_params = list(spec["trainable"])
+    return tape
 
 
 def to_jsonable(x):
